@@ -27,6 +27,18 @@ Fixpoint save_children (cfg : save_cfg) (s : saver rblob) (jobs : list (Z * chun
   | (i, c) :: rest => do s' <- save_in_child rblob rencode rbsize cfg s c i; save_children cfg s' rest
   end.
 
+(* digest of a run used by the kernel cross-check of the extraction: (save code, load code,
+   (start, end, n) of the loaded chunks, (chunk_i, n, file number or -1) of the stored entries) *)
+Definition res_code {A} (r : res A) : Z := match r with Ok _ => 0 | Err e => e end.
+Definition c03_digest (o : run_out) : Z * Z * list (Z * Z * Z) * list (Z * Z * Z) :=
+  (res_code (ro_save o), res_code (ro_load o),
+   match ro_load o with
+   | Ok l => map (fun c => (cstart c, cend c, Z.of_nat (length (crows c)))) l
+   | Err _ => []
+   end,
+   map (fun ci => (ci_i ci, ci_n ci, match ci_filename ci with Some f => f | None => -1 end))
+       (md_chunks (sv_disk (ro_saver o)))).
+
 (* mode 0: save_from; mode 1: forked children in the order `order` (indices into cs), then close *)
 Definition c03_run (cfg : save_cfg) (md0 : metadata) (cs : list chunk) (order : list nat)
            (t : tamper rblob) (allow_incomplete : bool) (default_target : Z) : run_out :=
